@@ -210,7 +210,9 @@ pub fn run(ctx: &Ctx) -> i32 {
     });
     let n = ctx.tier.pick(250u64, 4000u64);
     run_workload(ctx, &mut acc, "plumbing-generated", n, |k, rng, acc| {
-        if let Some(tp) = progsrc::generated(k, rng, Cfg::normal(), acc) {
+        let mut cfg = Cfg::normal();
+        cfg.pragma = Some(rng.ps(&["0.8.17", "0.7.6", "0.8.3"]).to_string());
+        if let Some(tp) = progsrc::generated(k, rng, cfg, acc) {
             let layouts: Vec<Layout> = if ctx.tier == Tier::Quick { vec![Layout::OneTokenPerLine, Layout::NoFinalNewline, Layout::Crlf, Layout::Random, Layout::RandomWithPrefix] } else { NAMED.to_vec() };
             for l in layouts {
                 if let Some(laid) = progsrc::lay_checked(&tp, l, rng, acc) {
